@@ -275,16 +275,16 @@ Proof.
     assert (Y6 : pax_get K_replaces_name (pax_set K_replaces_content V_true (h_pax h2)) = None) by (paxs; exact R2).
     destruct (upd_hdr_ok hr h3 _ Y1 L2 Y3 Y4 Y5 Y6 eq_refl) as (X1 & X2 & X3 & X4).
     split; [exact X1|]. split; [exact X2|]. split; [exact X3|]. split; [exact X4|]. cbn [h3 h_name set_pax]. exact N2.
-  - set (h3 := with_size_name (set_pax h2 (pax_set K_replaces_content V_false (h_pax h2))) 0 (h_name h2)).
+  - set (h3 := with_size_name (set_pax h2 (pax_set K_replaces_content V_false (keep_size h2))) 0 (h_name h2)).
     destruct (mk_member_spec s1 h3 None 0 T3) as (M1 & M2 & M3 & M4 & M5).
     destruct (mk_member s1 h3 None 0) as [m s2]. cbn [fst snd] in *.
     exists m, s2. rewrite M1. split; [reflexivity|]. split; [exact M2|]. split; [congruence|]. split; [congruence|].
     split; [exact M5|].
     assert (Y1 : good (h_name h3)) by (cbn [h3 h_name with_size_name]; rewrite N2; exact G).
-    assert (Y3 : usize_ok (pax_set K_replaces_content V_false (h_pax h2))) by (apply usize_ok_set; [reflexivity|exact U2]).
-    assert (Y4 : pax_get K_action (pax_set K_replaces_content V_false (h_pax h2)) = Some V_update) by (paxs; exact A2).
-    assert (Y5 : pax_get K_version (pax_set K_replaces_content V_false (h_pax h2)) = Some V_1) by (paxs; exact V2).
-    assert (Y6 : pax_get K_replaces_name (pax_set K_replaces_content V_false (h_pax h2)) = None) by (paxs; exact R2).
+    assert (Y3 : usize_ok (pax_set K_replaces_content V_false (keep_size h2))) by (apply usize_ok_set; [reflexivity|apply usize_ok_keep; exact U2]).
+    assert (Y4 : pax_get K_action (pax_set K_replaces_content V_false (keep_size h2)) = Some V_update) by (paxs; rewrite keep_size_get by reflexivity; exact A2).
+    assert (Y5 : pax_get K_version (pax_set K_replaces_content V_false (keep_size h2)) = Some V_1) by (paxs; rewrite keep_size_get by reflexivity; exact V2).
+    assert (Y6 : pax_get K_replaces_name (pax_set K_replaces_content V_false (keep_size h2)) = None) by (paxs; rewrite keep_size_get by reflexivity; exact R2).
     destruct (upd_hdr_ok hr h3 _ Y1 L2 Y3 Y4 Y5 Y6 eq_refl) as (X1 & X2 & X3 & X4).
     split; [exact X1|]. split; [exact X2|]. split; [exact X3|]. split; [exact X4|]. cbn [h3 h_name with_size_name]. exact N2.
 Qed.
